@@ -16,9 +16,8 @@ from vlib import VI, VB, VL
 import c07_keys
 
 PID = "C07"
-THEOREMS = ["hab_layout_roundtrip", "ivt_pointers_resolve", "signed_blocks_cover_except_known", "signed_blocks_cover_refuted",
-            "cms_obligations_ranges", "csf_offsets_resolve", "ccm_restores_app", "dcd_roundtrip", "xmcd_roundtrip_except_known",
-            "xmcd_roundtrip_refuted"]
+THEOREMS = ["hab_layout_roundtrip", "ivt_pointers_resolve", "segments_do_not_collide", "signed_blocks_cover",
+            "cms_obligations_ranges", "csf_offsets_resolve", "ccm_restores_app", "dcd_roundtrip", "xmcd_roundtrip"]
 WORKDIR = os.path.join(vlib.WORK, "C07", "scratch")     # .work/C07/proposed_fix_*.diff are kept
 RUN = os.path.join(WORKDIR, "run")
 ENGINES = {"ANY": 0, "CAAM": 0x1D, "DCP": 0x1B, "SW": 0xFF, "SNVS": 0x1E, "OCOTP": 0x21}
@@ -358,10 +357,12 @@ def gen_cases(tier, rng, pki, db):
             if mode == "enc":
                 c["dek"] = bytes(rng.getrandbits(8) for _ in range(16))
             add(c)
-    # 3b. XMCD with a non-zero instance (known finding C07-F2) and DCD that reaches the application (C07-F4)
-    for (iface, inst) in [(0, 1), (0, 2), (1, 1), (1, 3)]:
-        c = base_case(rng, "plain", geom=(0x400, 0x1000), why="XMCD instance != 0")
-        c["xmcd"] = enc_xmcd(iface, inst, 0, bytes(rng.getrandbits(8) for _ in range(4)))
+    # 3b. XMCD with every instance number (repaired C07-F2), DCD that reaches the application (repaired C07-F4: refused),
+    #     DCD and XMCD together (repaired C07-F5: refused)
+    for (iface, inst) in [(i, n) for i in (0, 1) for n in (range(1, 16) if thorough else (1, 2, 3, 4, 7, 15))]:
+        c = base_case(rng, rng.choice(["plain", "auth"]), geom=(0x400, 0x1000), why="XMCD instance != 0")
+        c["xmcd"] = enc_xmcd(iface, inst, rng.randrange(2), bytes(rng.getrandbits(8) for _ in range(rng.choice([4, 12]))))
+        set_keys(c, pki, rng, keyset="rsa2048")
         add(c)
     c = base_case(rng, "plain", geom=(0, 0x400), why="DCD reaching the application")
     c["dcd"] = mk_dcd(rng, "big")
@@ -436,7 +437,7 @@ def gen_cases(tier, rng, pki, db):
         if r < 0.35:
             c["dcd"] = mk_dcd(rng, rng.choice(["small", "mixed", "medium"]))
         elif r < 0.55:
-            c["xmcd"] = enc_xmcd(rng.randrange(2), 0, rng.randrange(2), bytes(rng.getrandbits(8) for _ in range(rng.choice([4, 8, 60, 200]))))
+            c["xmcd"] = enc_xmcd(rng.randrange(2), rng.randrange(16), rng.randrange(2), bytes(rng.getrandbits(8) for _ in range(rng.choice([4, 8, 60, 200]))))
         if mode == "enc":
             c["dek_bits"] = rng.choice([128, 192, 256])
             c["mac_len"] = rng.choice([4, 6, 8, 10, 12, 14, 16])
@@ -866,17 +867,6 @@ def oracle_image(c, image, pki, dek, impl_fuses):
             yield P("layout:app", "application bytes differ")
 
 
-def known_class(c):
-    """Input classes of the known findings F1, F2, F4, F5 (the model reproduces the defective behaviour there)."""
-    app_off = c["ils"] - c["ivt_off"]
-    return c["xmcd"] is not None or (c["dcd"] is not None and 64 + len(c["dcd"]) > app_off)
-
-
-def overlap_class(c):
-    app_off = c["ils"] - c["ivt_off"]
-    return c["dcd"] is not None and (c["xmcd"] is not None or 64 + len(c["dcd"]) > app_off)
-
-
 def oracle_parse(c, image, pr):
     """parse(export) must give back the same contents. pr = implementation's parse observables (or error tuple)."""
     P = lambda s, m: (s, m)
@@ -886,11 +876,11 @@ def oracle_parse(c, image, pr):
     if both or (c["dcd"] is not None and 64 + len(c["dcd"]) > app_off):
         return          # reported by the layout oracle as a collision
     if pr[0] != "ok":
-        if c["xmcd"] is not None and c["xmcd"][2] & 0xF:
-            yield P("parse:xmcd-instance-lost", f"image built from an XMCD with instance {c['xmcd'][2] & 0xF} cannot be parsed ({pr[1:]})")
-        elif enc:
+        if enc:
             yield P("parse:encrypted-image", f"an encrypted image cannot be parsed back ({pr[1:]}): the application offset is searched "
                                              "by looking for a reset vector in the ciphertext")
+        elif c["xmcd"] is not None and c["xmcd"][2] & 0xF:
+            yield P("parse:xmcd-instance-lost", f"image built from an XMCD with instance {c['xmcd'][2] & 0xF} cannot be parsed ({pr[1:]})")
         elif app_off not in KNOWN_APP_OFFSETS:
             yield P("parse:app-offset-not-in-list", f"image with application offset {app_off:#x} cannot be parsed ({pr[1:]})")
         elif c["why"] == "application without a usable reset vector":
@@ -918,7 +908,10 @@ def oracle_parse(c, image, pr):
         yield P("parse:csf-presence", "CSF presence differs")
     if p["csf"] is not None and bytes.fromhex(p["csf"]["reexport"]) != image[csf_off:]:
         yield P("parse:csf-reexport", "re-export of the parsed CSF differs from the CSF in the image")
-    if bytes.fromhex(p["reexport"]) != image:
+    if p["reexport"] is None:
+        if c.get("dcd_canonical", True):
+            yield P("parse:reexport", f"HabContainer.parse(image).export() raises {p.get('reexport_error')}")
+    elif bytes.fromhex(p["reexport"]) != image:
         yield P("parse:reexport", "HabContainer.parse(image).export() differs from image")
 
 
@@ -1004,11 +997,9 @@ def _run(rep, rng, tier):
                             hits.append((f"history:second-update_csf-{c['mode']}",
                                          "after a second update_csf() the exported image differs and no longer satisfies the property: "
                                          + (sub[0][1] if sub else "image changed")))
-            verdicts = [rep.failing(sig, f"[{c['why']}] {msg}", {"kind": "impl-oracle", "case": rec, "oracle": sig}) for sig, msg in hits]
-            class_sigs = ("sig:xmcd-not-covered", "layout:xmcd-instance-lost", "parse:xmcd-instance-lost", "layout:dcd-overlaps-app",
-                          "layout:dcd-xmcd-collide")
-            # the implementation's output shows none of the class defects (and nothing unknown)
-            nontrivial[c["id"]] = "violation" not in verdicts and not any(sig in class_sigs for sig, _ in hits)
+            for sig, msg in hits:
+                rep.failing(sig, f"[{c['why']}] {msg}", {"kind": "impl-oracle", "case": rec, "oracle": sig})
+            nontrivial[c["id"]] = not hits
         else:
             stats["rejected"] += 1
         c["dek_used"], c["sigs"] = dek, (sig_data, sig_csf)
@@ -1025,7 +1016,6 @@ def _run(rep, rng, tier):
         expr_owner.append((t, 4))
     # correspondence
     ndis = 0
-    repaired = set()
     vlib.log(f"  oracles done at {time.time() - rep.t0:.0f} s; openssl cms calls {_cms_n[0]}")
     compared = {"build": 0, "parse": 0, "error-class": 0}
     if model_ok:
@@ -1092,11 +1082,6 @@ def _run(rep, rng, tier):
                         ic = p["csf"]["cmds"] if p["csf"] else None
                         if mc != ic:
                             dis = f"parse: CSF commands: impl {str(ic)[:120]} model {str(mc)[:120]}"
-                if dis and known_class(c) and (nontrivial.get(cid) or (r["build"][0] == "e" and r["build"][1] == 1 and overlap_class(c))):
-                    # known finding class, and the implementation's output satisfies every oracle: the defect was repaired
-                    # upstream; the (defect-faithful) model is expected to differ -- not a violation
-                    repaired.add(c["why"])
-                    dis = None
                 if dis:
                     ndis += 1
                     if ndis <= 8:
@@ -1104,8 +1089,6 @@ def _run(rep, rng, tier):
                     name = f"correspondence:{'build' if fn == 1 else 'parse'}"
                     if name not in rep.broken:
                         rep.broken.append(name)
-            if repaired:
-                vlib.log(f"  note: known-finding classes now satisfy the property on the implementation (repaired upstream?): {sorted(repaired)}")
             rep.obligation("correspondence:model = implementation (image bytes, block lists, signed bytes, parse observables)",
                            ndis == 0, f"{ndis} disagreements" if ndis else "")
         except Exception as ex:  # noqa
